@@ -26,9 +26,32 @@ def showTok (t : Bool × Str) : String := showBool t.1 ++ ":" ++ showStr t.2
 
 def showToks (l : List (Bool × Str)) : String := joinList (l.map showTok)
 
+/-- a segment: `q<str>` (quoted by the documented rules) or `w<str>` (as it is) -/
+def parseSeg (s : String) : Option Seg :=
+  match s.toList with
+  | 'q' :: r => (parseStr (String.ofList r)).map Seg.q
+  | 'w' :: r => (parseStr (String.ofList r)).map Seg.w
+  | _ => none
+
+/-- an argument with the whitespace before it: `<sep>/<seg>+<seg>+…` -/
+def parseItem (s : String) : Option (Str × List Seg) :=
+  match s.splitOn "/" with
+  | [sep, segs] => do
+    let sep ← parseStr sep
+    let segs ← (segs.splitOn "+").mapM parseSeg
+    pure (sep, segs)
+  | _ => none
+
+/-- the hypotheses of `tokens_mixed_line`, as one Boolean -/
+def mixedHyp (sq : Bool) (items : List (Str × List Seg)) (trail : Str) : Bool :=
+  items.all (fun p => p.1.all isWs && !p.2.isEmpty && itemOk sq p.2)
+    && items.tail.all (fun p => !p.1.isEmpty) && trail.all isWs
+
 /-- `tok sq s` (structural model) | `mtok sq s` (literal machine; `nofuel` if it
 does not halt) | `quote sq s` | `qjoin sq s1,s2,…` | `wsrange lo hi` (hex,
-inclusive: the whitespace code points in the range) -/
+inclusive: the whitespace code points in the range) | `mixed sq trail item,item,…`
+(reply `<hypotheses of tokens_mixed_line hold>|<layout ++ trail>|<tokens the theorem
+promises>`) -/
 def handle : List String → String
   | ["tok", sq, s] =>
     match parseBool sq, parseStr s with
@@ -49,6 +72,12 @@ def handle : List String → String
     match parseBool sq, (splitList l).mapM parseStr with
     | some sq, some l => showStr (joinSp (l.map (quote sq)))
     | _, _ => "bad-op"
+  | ["mixed", sq, trail, l] =>
+    match parseBool sq, parseStr trail, (splitList l).mapM parseItem with
+    | some sq, some trail, some items =>
+      showBool (mixedHyp sq items trail) ++ "|" ++ showStr (layout sq items ++ trail) ++ "|"
+        ++ showToks (items.map fun p => (itemQuoted p.2, itemVal p.2))
+    | _, _, _ => "bad-op"
   | ["wsrange", lo, hi] =>
     match parseHexNat lo, parseHexNat hi with
     | some lo, some hi =>
